@@ -569,6 +569,10 @@ func (e *CEnv) equal(a, b Value) *Term {
 		if bs, ok := b.(*SliceVal); ok {
 			return e.sliceEq(av, bs)
 		}
+	case *FuncVal:
+		if bf, ok := b.(*FuncVal); ok {
+			return e.x.valEq(e.st, av, bf, nil)
+		}
 	}
 	cfail("equality between %T and %T", a, b)
 	return nil
@@ -732,7 +736,21 @@ func (e *CEnv) index(ex *CExpr) Value {
 	return nil
 }
 
-func (x *Exec) fromElemPure(t *Term, typ types.Type) Value { return t }
+// fromElemPure: elements read in contracts; pointers to structs, function values and interfaces become the same Values
+// the executor would read (so b.encoders[i].data or b.compareFuncs[0] == f mean what they mean in the code).
+func (x *Exec) fromElemPure(t *Term, typ types.Type) Value {
+	switch u := under(typ).(type) {
+	case *types.Pointer:
+		if _, ok := under(u.Elem()).(*types.Struct); ok {
+			return x.symPtr(nil, t, u)
+		}
+	case *types.Signature:
+		return &FuncVal{Name: "elem", Sym: t}
+	case *types.Interface:
+		return &IfaceVal{Sym: t, Typ: typ}
+	}
+	return t
+}
 
 // ---------- calls: builtin spec functions, pure definitions
 
